@@ -36,7 +36,8 @@ struct Shared {
     uint64_t rehash_mismatch;
     uint64_t rehash_checked;
     // per-property tunables measured in run
-    uint64_t max_tick_ratio_x1000;   // C04 calibration: max ticks / (bytes+values+granted)
+    uint64_t max_tick_ratio_x1000;
+    uint64_t slow_ms, slow_index;   // slowest single run (wall clock, diagnostics only)   // C04 calibration: max ticks / (bytes+values+granted)
 };
 extern Shared* SH;
 
